@@ -213,6 +213,32 @@ def main():
                 prog.type_of()
                 t3 = pt.compileTeal(prog, pt.Mode.Application, version=version, **kw)
                 d.append(hashlib.sha1(t3.encode()).hexdigest())
+            elif kind == "sharedopts":
+                # one OptimizeOptions object serves two unrelated programs (and a router's approval + clear-state programs):
+                # the options VALUE is the same, so the second program must compile as it does with a fresh options object
+                _, k, version = item
+                def prog_a():
+                    r7 = pt.ScratchVar(pt.TealType.uint64, 7 + k)
+                    return pt.Seq(r7.store(pt.Int(5)), pt.Return(r7.load()))
+                def prog_b():
+                    x = pt.ScratchVar(pt.TealType.uint64)
+                    g = pt.ScratchVar(pt.TealType.uint64)
+
+                    @pt.Subroutine(pt.TealType.uint64)
+                    def peek():
+                        return g.load() + pt.Int(1)
+                    return pt.Seq(g.store(pt.Int(41)), x.store(pt.Int(2) + pt.Txn.fee()), pt.Pop(x.load()), pt.Return(peek()))
+                fresh = pt.compileTeal(prog_b(), pt.Mode.Application, version=version, optimize=pt.OptimizeOptions(scratch_slots=True))
+                shared = pt.OptimizeOptions(scratch_slots=True)
+                pt.compileTeal(prog_a(), pt.Mode.Application, version=version, optimize=shared)
+                after = pt.compileTeal(prog_b(), pt.Mode.Application, version=version, optimize=shared)
+                d = [hashlib.sha1(fresh.encode()).hexdigest(), hashlib.sha1(after.encode()).hexdigest()]
+                # the other way round: the program with the reserved slot after the one with the shared slot
+                fresh_a = pt.compileTeal(prog_a(), pt.Mode.Application, version=version, optimize=pt.OptimizeOptions(scratch_slots=True))
+                shared2 = pt.OptimizeOptions(scratch_slots=True)
+                pt.compileTeal(prog_b(), pt.Mode.Application, version=version, optimize=shared2)
+                after_a = pt.compileTeal(prog_a(), pt.Mode.Application, version=version, optimize=shared2)
+                d.append(d[0] if fresh_a == after_a else "DIFF:reserved-slot-program-after-the-other")
             elif kind == "routerfail":
                 _, k, version = item
                 r = router_fail_program(pt, k)
